@@ -25,17 +25,20 @@ impl Codegen for Choice {
         if self.choices.len() < 2 {
             return self.choices[0].generate_code_spec(rule_fields, grammar, settings);
         }
+        let inline_bodies: Vec<Option<TokenStream>> = self
+            .choices
+            .iter()
+            .map(|c| {
+                c.generate_inline_body(rule_fields, grammar, settings, CloneState::No)
+                    .ok()
+                    .flatten()
+            })
+            .collect();
         let choice_bodies = self
             .choices
             .iter()
             .enumerate()
-            .filter(|(_, choice)| {
-                choice
-                    .generate_inline_body(rule_fields, grammar, settings, CloneState::Yes)
-                    .ok()
-                    .flatten()
-                    .is_none()
-            })
+            .filter(|(num, _)| inline_bodies[*num].is_none())
             .map(|(num, choice)| -> Result<TokenStream> {
                 let choice_mod = format_ident!("choice_{num}");
                 let sequence_body = choice.generate_code(rule_fields, grammar, settings)?;
@@ -48,7 +51,7 @@ impl Codegen for Choice {
             })
             .collect::<Result<TokenStream>>()?;
         let parse_body =
-            self.generate_parse_body(rule_fields, grammar, settings, CloneState::No)?;
+            self.generate_parse_body(rule_fields, grammar, inline_bodies, CloneState::No)?;
         let parse_function = generate_inner_parse_function(parse_body, settings);
         Ok(quote!(
             #choice_bodies
@@ -65,21 +68,28 @@ impl Codegen for Choice {
     ) -> Result<Option<TokenStream>> {
         if self.choices.len() < 2 {
             self.choices[0].generate_inline_body(rule_fields, grammar, settings, clone_state)
-        } else if self.choices.iter().all(|c| {
-            c.generate_inline_body(rule_fields, grammar, settings, CloneState::No)
-                .ok()
-                .flatten()
-                .is_some()
-        }) && self.get_filtered_rule_fields(rule_fields, grammar)?.len() <= 1
-        {
-            Ok(Some(self.generate_parse_body(
-                rule_fields,
-                grammar,
-                settings,
-                clone_state,
-            )?))
         } else {
-            Ok(None)
+            let inline_bodies: Vec<Option<TokenStream>> = self
+                .choices
+                .iter()
+                .map(|c| {
+                    c.generate_inline_body(rule_fields, grammar, settings, CloneState::No)
+                        .ok()
+                        .flatten()
+                })
+                .collect();
+            if inline_bodies.iter().all(Option::is_some)
+                && self.get_filtered_rule_fields(rule_fields, grammar)?.len() <= 1
+            {
+                Ok(Some(self.generate_parse_body(
+                    rule_fields,
+                    grammar,
+                    inline_bodies,
+                    clone_state,
+                )?))
+            } else {
+                Ok(None)
+            }
         }
     }
 
@@ -123,19 +133,17 @@ impl Choice {
         &self,
         rule_fields: &[FieldDescriptor],
         grammar: &Grammar,
-        settings: &CodegenSettings,
+        inline_bodies: Vec<Option<TokenStream>>,
         clone_state: CloneState,
     ) -> Result<TokenStream> {
         let fields = self.get_filtered_rule_fields(rule_fields, grammar)?;
         let calls = self
             .choices
             .iter()
+            .zip(inline_bodies)
             .enumerate()
-            .map(|(num, choice)| {
-                let parse_call = if let Some(inline_body) = choice
-                    .generate_inline_body(rule_fields, grammar, settings, CloneState::No)
-                    .unwrap()
-                {
+            .map(|(num, (choice, inline_body))| {
+                let parse_call = if let Some(inline_body) = inline_body {
                     inline_body
                 } else {
                     let choice_mod = format_ident!("choice_{num}");
